@@ -13,6 +13,7 @@ import (
 	"errors"
 	"fmt"
 	"io"
+	"strings"
 	"testing"
 
 	"verif.local/kit"
@@ -79,10 +80,33 @@ func c43Capacity(s *LimitedReaderSlurper) uint64 {
 	return total
 }
 
-func TestVerifC43Slurper(t *testing.T) {
-	c := kit.Start(t, "C43", "slurper")
+// ruleAcc lets several lanes of one part contribute to the part's rule text.
+type ruleAcc struct {
+	c     *kit.Ctx
+	parts []string
+}
+
+func (a *ruleAcc) add(lane, s string) {
+	a.parts = append(a.parts, "["+lane+"] "+s)
+	a.c.Rule(strings.Join(a.parts, " || "))
+}
+
+// TestVerifC43Size: the three size lanes (slurper alone, one connection at a time, concurrent connections).
+func TestVerifC43Size(t *testing.T) {
+	c := kit.Start(t, "C43", "size")
 	defer c.Finish()
-	c.Rule("LimitedReaderSlurper instances with PRNG-chosen base/max allocations (including the production 2 KiB / 6 MiB) read sequences of streams through Reset(limit)+Read: limits 0 (none), 1, around the base allocation, around 64 KiB chunk boundaries, around and above the maximum, and every protocol tag limit; stream lengths limit-1, limit, limit+1, 2*limit, max-1, max, max+1 and random; readers deliver 1-byte pieces, random pieces, zero-length reads, EOF with or after the last bytes, and injected errors. distinct = (base, max, limit class, length class, reader mode, outcome)")
+	ra := &ruleAcc{c: c}
+	c43SlurperLane(c, ra)
+	if c.Violations() < 20 {
+		c43WireLane(c, ra)
+	}
+	if c.Violations() < 20 {
+		c43WireConcurrentLane(c, ra)
+	}
+}
+
+func c43SlurperLane(c *kit.Ctx, ra *ruleAcc) {
+	ra.add("slurper", "LimitedReaderSlurper instances with PRNG-chosen base/max allocations (including the production 2 KiB / 6 MiB) read sequences of streams through Reset(limit)+Read: limits 0 (none), 1, around the base allocation, around 64 KiB chunk boundaries, around and above the maximum, and every protocol tag limit; stream lengths limit-1, limit, limit+1, 2*limit, max-1, max, max+1 and random; readers deliver 1-byte pieces, random pieces, zero-length reads, EOF with or after the last bytes, and injected errors. distinct = (base, max, limit class, length class, reader mode, outcome)")
 	c.Assume("one chunk = max(base allocation, 64 KiB allocation step); the statement's 'never buffers more than the limit' is read as 'consumption bounded by limit + one chunk, independent of the stream length' (DESIGN.md section 7)")
 
 	type alloc struct{ base, max uint64 }
@@ -90,12 +114,16 @@ func TestVerifC43Slurper(t *testing.T) {
 		{65536, 3 * 65536}, {100000, 100001}, {0, 65536}, {300, 200}, {4096, 1 << 20}}
 	tagLimits := []uint64{48, 67, 69, 215, 850, 1228, 6378}
 	ncases := c.N(1500, 60000)
+	race := c.Lane == "race" // byte loops are ~30x slower under the race detector: fewer cases, no 6 MiB streams
+	if race {
+		ncases = c.N(300, 6000)
+	}
 	stream := make([]byte, 0, 2*MaxMessageLength+16)
 	for i := 0; i < ncases && c.Violations() < 20; i++ {
 		r := c.Rand(10, uint64(i))
 		a := allocs[r.Intn(len(allocs))]
 		big := a.max > 1<<20
-		if big && !r.Chance(1, 6) { // the 6 MiB configuration is exercised, but most cases use small ones
+		if big && (race || !r.Chance(1, 6)) { // the 6 MiB configuration is exercised, but most cases use small ones
 			a = allocs[1+r.Intn(len(allocs)-1)]
 			big = a.max > 1<<20
 		}
